@@ -120,6 +120,29 @@ def check(run):
                 f"numpy.ndarray.{name} can rewrite the receiver's bytes without passing any TrackedArray override",
                 key=key_of("C02-R1", "missing-override", name),
             )
+    # a descriptor covered by a property: the setter (and, where the getter hands out a writable iterator, the getter)
+    # must raise the flag before it reaches ndarray's descriptor of the same name
+    GETTER_WRITABLE = {"flat": "ndarray.flat returns an iterator that can be assigned through"}
+    for name in DESCRIPTORS:
+        if name not in np_names or not (name in ta.getters or name in ta.setters):
+            continue
+        roles = [("setter", ta.setters.get(name))] + ([("getter", ta.getters.get(name))] if name in GETTER_WRITABLE else [])
+        for role, fi in roles:
+            if fi is None:
+                run.instance("R2", ta.where, f"property {name}: {role} missing", False)
+                run.violation("R2", ta.where, f"TrackedArray.{name} is a property without a {role} that raises the dirty flag: assignment through ndarray.{name} "
+                                              f"is either impossible (read-only property) or unseen", key=key_of("C02-R2", name, role, "missing"))
+                continue
+            cfg = CFG(fi.node, exceptions=False)
+            flag_nodes = [n for n, st in cfg.stmt.items() if st is not None and cfg.kind[n] == "stmt" and _is_flag_store(st, True)]
+            dele = [c for c in ast.walk(fi.node) if isinstance(c, ast.Call) and isinstance(c.func, ast.Attribute) and c.func.attr in ("__set__", "__get__")
+                    and ast.unparse(c.func.value).endswith(f"ndarray.{name}")]
+            dele_nodes = [n for n, st in cfg.stmt.items() if st is not None and any(d in list(ast.walk(st)) for d in dele)]
+            ok = bool(flag_nodes) and bool(dele_nodes) and all(any(cfg.dominates(f, d) and f != d for f in flag_nodes) for d in dele_nodes)
+            run.instance("R2", fi.where, f"property {name} {role}: flag store dominates ndarray.{name}.{'__set__' if role == 'setter' else '__get__'}", ok)
+            if not ok:
+                run.violation("R2", fi.where, f"TrackedArray.{name} ({role}) reaches ndarray's `{name}` descriptor without having set _dirty_hash = True",
+                              key=key_of("C02-R2", name, role, "flag-not-dominating"))
     for name, why in INDIRECT.items():
         run.instance("R1", ta.where, f"ndarray.{name}: covered indirectly - {why}", True, nontrivial=False)
     unknown_mutators = [n for n in defined if n not in np_names and n not in ("mutable",)
